@@ -8,7 +8,7 @@ from props import c06
 
 
 def knobs(r, i):
-    return {"ops": 30 + r.below(100), "multi": True, "cycle_density": i % 3, "threads": 1 + i % 2, "open_at_close": i % 2 == 1, "orphans": i % 3 != 0, "prebuilt": i % 4 == 1}
+    return {"ops": 30 + r.below(100), "multi": True, "cycle_density": i % 3, "threads": 1 + i % 2, "open_at_close": i % 2 == 1, "orphans": i % 3 != 0, "prebuilt": i % 4 == 1, "move_sets": i % 3 != 2}
 
 
 D10_PUSHED = """0 spawn
@@ -78,7 +78,7 @@ def timed(v, tier, seed):
     them), run with every call bracketed by clock readings; durations of the delivered copies against the calls' windows"""
     n = 150 if tier == "quick" else 8000
     r = C.Rng(seed * 1000003 + 1717)
-    gens = [proggen.make(r.fork(), "tree", {"ops": 25 + r.below(60), "multi": True, "cycle_density": 1 + i % 2, "threads": 1 + i % 2, "open_at_close": True, "sleeps": True,
+    gens = [proggen.make(r.fork(), "tree", {"ops": 25 + r.below(60), "multi": True, "cycle_density": 1 + i % 2, "threads": 1 + i % 2, "open_at_close": True, "sleeps": True, "move_sets": True,
                                             "orphans": i % 3 == 0}) for i in range(n)]
     cases = [g.lines for g in gens] + list(OPEN_SCEN.values())
     specs = [g.s for g in gens] + [proggen.spec_of(x) for x in OPEN_SCEN.values()]
